@@ -204,7 +204,7 @@ pub fn exec(case: &J, acc: &mut Acc) -> Result<(), Fail> {
             if variant == 7 && step == at {
                 checkpoint = h.story.save_state().ok();
             }
-            if (variant == 3 && step == at) || variant == 5 {
+            if (variant == 3 && step == at) || variant == 5 || variant == 8 {
                 // save -> fresh story -> load
                 let s = h.story.save_state().map_err(|e| e.to_string())?;
                 let mut h2 = Host::new(&json_text, meta.clone(), &cfg).map_err(|e| e.to_string())?;
@@ -219,8 +219,10 @@ pub fn exec(case: &J, acc: &mut Acc) -> Result<(), Fail> {
                     }
                 }
             }
-            if variant == 6 {
-                // flow 0 plays in the DEFAULT flow; a named flow that has finished its script is
+            if variant == 6 || variant == 8 {
+                // flow 0 plays in the DEFAULT flow (variant 8: with save -> fresh story -> load
+                // before every step, so saves are taken while the default flow is the current
+                // one and named flows are parked); a named flow that has finished its script is
                 // removed while it is the current one, which returns the story to the default
                 // flow without any switch call
                 if current != Some(f) {
@@ -251,7 +253,7 @@ pub fn exec(case: &J, acc: &mut Acc) -> Result<(), Fail> {
                 current = Some(f);
             }
             // switching away and back is a no-op: the flow shows what it showed when it was left
-            if started[f] && variant != 3 && variant != 5 {
+            if started[f] && variant != 3 && variant != 5 && variant != 8 {
                 if let Some(before) = &shown[f] {
                     let now = poll(&mut h);
                     if *before != now && back_diff.is_none() {
@@ -268,7 +270,7 @@ pub fn exec(case: &J, acc: &mut Acc) -> Result<(), Fail> {
             next[f] += 1;
             got[f].extend(story_obs(&h.trace[m..]));
             shown[f] = Some(poll(&mut h));
-            if variant == 6 && f != 0 && next[f] >= scripts[f].len() && !removed[f] {
+            if (variant == 6 || variant == 8) && f != 0 && next[f] >= scripts[f].len() && !removed[f] {
                 h.apply(&HostOp::RemoveFlow(FLOWS[f].to_string()));
                 removed[f] = true;
                 current = Some(0);
@@ -449,7 +451,7 @@ pub fn run(env: &Env) -> i32 {
                 let base = json!({"source": src, "entries": entries,
                     "scripts": scripts.iter().map(|s| ops_to_json(s)).collect::<Vec<_>>()});
                 for (oi, order) in orders.iter().enumerate() {
-                    for variant in 0..8u64 {
+                    for variant in 0..9u64 {
                         if variant != 0 && (oi + variant as usize) % 3 != 0 {
                             continue; // variants on a third of the interleavings each
                         }
